@@ -7,7 +7,7 @@
               save may fail only while the fake Keep refuses writes, and every saved manifest loads
               to exactly the tree the plain filesystem holds at that point. *)
 From Coq Require Import NArith List Arith String Bool.
-From AV Require Import lib.Str lib.Path model.CFS_file model.CFS_tree model.CFS_inst model.C08_run model.CFS_bg.
+From AV Require Import lib.Str lib.Path model.CFS_file model.CFS_tree model.CFS_inst model.C08_run model.CFS_bg model.CFS_tload.
 Import ListNotations.
 Local Open Scope string_scope.
 Local Open Scope list_scope.
@@ -131,10 +131,25 @@ Definition load_or_empty mb (tab : list (list byte * string)) (txt : string) : o
   if String.eqb txt "" then Some (fs_init (Conc mb))
   else match b_load mb tab txt with Ok s => Some s | Err _ => None end.
 
+(* the tree-level loader (CFS_tload, the one the round-trip theorem is stated for) and the inode-table
+   loader accept the same texts and build the same tree: evaluated on the initial manifest and on
+   every saved manifest of the case *)
+Definition t_load_or_empty (tab : list (list byte * string)) (txt : string) : option T :=
+  if String.eqb txt "" then Some (TD []) else t_load tab txt.
+Definition tl_agree mb (tab : list (list byte * string)) (txt : string) : bool :=
+  match load_or_empty mb tab txt, t_load_or_empty tab txt with
+  | Some l, Some t => listing_eqb (tree_listing (Conc mb) content l) (listing_T "." t)
+  | None, None => true
+  | _, _ => false
+  end.
+Definition tl_agree_events mb tab (es : list ev) : bool :=
+  forallb (fun e => match e with EMarshal (MText t) => tl_agree mb tab t | _ => true end) es.
+
 Definition model_b (c : case) : bool :=
   match load_or_empty (c_mb c) (c_tab c) (c_init c) with
   | None => false
   | Some s => brun (c_mb c) (c_tab c) (binit (c_mb c) (c_tab c) s) (c_events c)
+              && tl_agree (c_mb c) (c_tab c) (c_init c) && tl_agree_events (c_mb c) (c_tab c) (c_events c)
   end.
 
 (* specification run: only foreground operations act; mode is tracked to know whether a save may fail *)
